@@ -4,6 +4,10 @@
 #[verifier::external_body]
 #[verifier::reject_recursive_types_in_ground_variants]
 pub struct Error { _p: u8 }
+impl core::fmt::Debug for Error {
+    #[verifier::external_body]
+    fn fmt(&self, f: &mut core::fmt::Formatter<'_>) -> core::fmt::Result { unimplemented!() }
+}
 pub type Result<T> = core::result::Result<T, Error>;
 
 /// R4: `bail!(..)` -> `return Err(verr())` -- the message payload is dropped
